@@ -1,6 +1,7 @@
 import FimVerif.Proofs.Lemmas.C02Props
 import FimVerif.Proofs.Lemmas.C02Tree
 import FimVerif.Proofs.Lemmas.C02Check
+import FimVerif.Proofs.Lemmas.C02Graph
 /-!
 # C02 — sliver ↔ graph / dictionary / JSON conversion preserves every settable field
 
@@ -17,8 +18,10 @@ What is proved here, for *every* `Codecs V P` (value model) and every table pass
   `unset_counterexample` – model elements.
 * `dict_roundtrip_partial` – deep dictionary / JSON round trip by structural induction over the sliver tree;
 * `image_join_split`, `image_type_comma_counterexample` – the `ImageRef` text format;
-* `graph_roundtrip_leaf_partial` – model-graph round trip of a childless sliver (trees with children through the graph:
-  differential only).
+* `graph_roundtrip_partial`, `graph_roundtrip_component_partial`, `graph_children_perm` – model-graph round trip
+  (`add_*_sliver` then `build_deep_*_sliver`) for trees with children and distinct node ids, children up to order;
+* (in `Lemmas/C02Codec.lean`) `rowLaw_jsonfield` – the codec hypothesis discharged from `C03.lossless` for the seven
+  JSONField classes, for every value model that carries C03's `encode`/`decode`.
 -/
 namespace FimVerif.C02
 open FimVerif.Sliver FimVerif.Gen.SliverMap
@@ -32,65 +35,6 @@ theorem tables_ok : tables.all tableOK = true := by decide
 section
 variable {V P : Type}
 
-theorem tableOK_nodup_g {T : KindTable} (h : tableOK T = true) : (T.toRows.map (·.gprop)).Nodup := by
-  simp only [tableOK, Bool.and_eq_true, decide_eq_true_eq] at h
-  exact h.1.1.1.1.1.1
-
-theorem tableOK_nodup_k {T : KindTable} (h : tableOK T = true) : (T.fromRows.map (·.key)).Nodup := by
-  simp only [tableOK, Bool.and_eq_true, decide_eq_true_eq] at h
-  exact h.1.1.1.1.1.2
-
-theorem tableOK_pair {T : KindTable} (h : tableOK T = true) (f : FromRow) (hf : f ∈ T.fromRows) :
-    ∃ r ∈ T.toRows, r.gprop = f.gprop ∧ f.key ∈ r.keys ∧ (f.absent = Absent.none ∨ r.always = true) := by
-  simp only [tableOK, Bool.and_eq_true, List.all_eq_true, List.any_eq_true] at h
-  obtain ⟨r, hr, hp⟩ := h.1.1.1.1.2 f hf
-  simp only [pairs, Bool.and_eq_true, Bool.or_eq_true, beq_iff_eq, List.contains_iff_mem] at hp
-  exact ⟨r, hr, hp.1.1.1, hp.1.1.2, hp.2⟩
-
-theorem readRow_some (C : Codecs V P) (p : Props P) (f : FromRow) (x : P) (h : p f.gprop = some x) :
-    readRow C p f = readVal C f x := by
-  unfold readRow decodeRow readVal
-  rw [h]
-  rfl
-
-theorem readRow_none (C : Codecs V P) (p : Props P) (f : FromRow) (h : p f.gprop = none) (ha : f.absent = Absent.none) :
-    readRow C p f = setRow C f none := by
-  unfold readRow decodeRow
-  rw [h, ha]
-
-/-- every from-row reads back the field it belongs to -/
-theorem readRow_toProps (C : Codecs V P) (T : KindTable) (s : Fields V) (hT : tableOK T = true)
-    (hlaw : FieldLaw C T s) (hfate : FateShared T s) (hreq : Required T s) (f : FromRow) (hf : f ∈ T.fromRows) :
-    readRow C (toProps C T s) f = .ok (s f.key) := by
-  obtain ⟨r, hr, hgp, hkey, habs⟩ := tableOK_pair hT f hf
-  have hval := toProps_mem C T s r (tableOK_nodup_g hT) hr
-  rw [hgp] at hval
-  have hl := hlaw r hr f hf hgp.symm
-  unfold rowOut at hval
-  cases hv : rowVals s r.keys with
-  | some vs =>
-    rw [hv] at hval hl
-    rw [readRow_some C _ f _ hval]
-    exact hl
-  | none =>
-    rw [hv] at hval hl
-    cases hal : r.always with
-    | true =>
-      rw [hal] at hval
-      rw [readRow_some C _ f _ hval]
-      exact hl hal
-    | false =>
-      rw [hal] at hval
-      have ha : f.absent = Absent.none := by
-        rcases habs with h | h
-        · exact h
-        · rw [hal] at h; cases h
-      rw [readRow_none C _ f hval ha, hfate r hr hv hal f.key hkey]
-      unfold setRow
-      cases hn : f.noneOk with
-      | true => rfl
-      | false => exact absurd hv (hreq f hf hn r hr hgp)
-
 /--
 **Flat round trip** (`<kind>_sliver_from_graph_properties_dict ∘ <kind>_sliver_to_graph_properties_dict`): for every
 value model, every table passing the check, and every field assignment satisfying the codec law, the rebuilt sliver
@@ -101,20 +45,8 @@ has exactly the original value in every property the class can set.
 -/
 theorem props_roundtrip_partial (C : Codecs V P) (T : KindTable) (s : Fields V) (hT : tableOK T = true)
     (hlaw : FieldLaw C T s) (hfate : FateShared T s) (hreq : Required T s) :
-    fromProps C T (toProps C T s) = .ok (restrict T s) := by
-  obtain ⟨s', hs', hkeys, hframe⟩ := fromRowsGo_spec C (toProps C T s) s T.fromRows Fields.empty (tableOK_nodup_k hT)
-    (fun f hf => readRow_toProps C T s hT hlaw hfate hreq f hf)
-  unfold fromProps
-  rw [hs']
-  congr 1
-  funext k
-  unfold restrict
-  by_cases hk : k ∈ T.fromRows.map (·.key)
-  · rw [if_pos hk]
-    obtain ⟨f, hf, rfl⟩ := List.mem_map.mp hk
-    exact hkeys f hf
-  · rw [if_neg hk, hframe k hk]
-    rfl
+    fromProps C T (toProps C T s) = .ok (restrict T s) :=
+  fromProps_toProps C T s hT hlaw hfate hreq
 
 /-- every settable property (other than containment) is among the rebuilt ones, so `restrict` hides nothing settable -/
 theorem settable_rebuilt {T : KindTable} (hT : tableOK T = true) (k : String) (hk : k ∈ T.settable)
@@ -392,52 +324,79 @@ theorem image_type_comma_counterexample :
     concrete.dec Dec.commaRSplit "1" (concrete.enc Enc.commaJoin [Val.str "img", Val.str "qcow2,raw"]) = .ok (some (Val.str "raw")) := by
   decide
 
-/-! ### model-graph path -/
+/-! ### model-graph round trip, for trees with children -/
 
 section
 variable {V P : Type} [DecidableEq V]
 
-theorem neighbors_no_edges (nodes : List (GNode P)) (id rel cls : String) :
-    neighbors (⟨nodes, []⟩ : AGraph P) id rel cls = [] := by
-  simp [neighbors]
-
-theorem foldl_fixed {α β : Type} (F : Except Err α → β → Except Err α) (h : ∀ sc acc, F (.ok acc) sc = .ok acc)
-    (slots : List β) (acc : α) : slots.foldl F (.ok acc) = .ok acc := by
-  induction slots with
-  | nil => rfl
-  | cons sc rest ih => rw [List.foldl_cons, h]; exact ih
-
 /--
-**Graph round trip of a childless sliver** of any kind but `component` (which needs a parent): written into an empty
-model graph with `add_*_sliver` and rebuilt with `build_deep_*_sliver`, it comes back with its node id and every
-rebuilt property.  (Trees with children through the graph are covered by the differential run only.)
+**Model-graph round trip** (`add_network_node_sliver` / `add_network_service_sliver` / `add_interface_sliver` /
+`add_network_link_sliver` into an empty graph, then `build_deep_<kind>_sliver`): every well-formed sliver tree with
+node ids that are present and pairwise distinct comes back as `gnorm s` — same kind and node id, every rebuilt
+property equal, and the children of each element rebuilt recursively and grouped by kind (components before services;
+`regroup_perm`: a permutation of the original children — the implementation enumerates neighbours as a set, so
+order is not observable).  Below an interface the graph reader attaches children only to a `DedicatedPort` and
+builds them flat (`gnorm` says so explicitly).
+Proof: `add_built` (what the writer leaves in the store, by induction over the tree with frame conditions) and
+`build_built` (the reader on any store containing that, by induction over the tree).
+`_partial` only through `WF`'s `FateShared` conjunct (see `props_roundtrip_partial`).
 -/
-theorem graph_roundtrip_leaf_partial (C : Codecs V P) (k : Kind) (id : String) (f : Fields V)
-    (hk : k ≠ "component")
-    (hT : tableOK (tableOf k) = true) (hlaw : FieldLaw C (tableOf k) f) (hfate : FateShared (tableOf k) f)
-    (hreq : Required (tableOf k) f) :
-    graphRoundtrip (P := P) C (.mk k (some id) f []) = .ok (.mk k (some id) (restrict (tableOf k) f) []) := by
-  have hp := props_roundtrip_partial C (tableOf k) f hT hlaw hfate hreq
+theorem graph_roundtrip_partial (C : Codecs V P) (s : Sliver V) (hk : s.kind ≠ "component") (hs : Shaped s)
+    (hw : WF C s) (hnd : (idsOf s).Nodup) : graphRoundtrip (P := P) C s = .ok (gnorm C s) := by
+  obtain ⟨g', hadd, hb, _⟩ := add_built C s (AGraph.empty : AGraph P) none hs
+    (fun i _ => ⟨rfl, rfl⟩) hnd (fun q hq => by cases hq)
+  have hr : rank s.kind ≤ 5 := by unfold rank; split <;> (try split) <;> (try split) <;> omega
+  have hbuild := build_built C g' s none 5 hb hs hw (fun q hq => by cases hq) hr
   unfold graphRoundtrip
-  simp only [Sliver.kind, hk, if_false, addSliver, addNode, AGraph.empty, List.any_nil, Bool.false_eq_true, addKids,
-    List.nil_append, Sliver.nodeId, Option.getD_some, List.length_cons, List.length_nil]
-  simp only [buildDeep, findNode, List.filter_cons, beq_self_eq_true, if_true, List.filter_nil, bne_self_eq_false,
-    Bool.false_and, hp]
-  by_cases hi : (k == "interface") = true
-  · simp only [hi, if_true]
-    by_cases hd : ((restrict (tableOf k) f) "type").any C.isDedicated = true
-    · simp [hd, neighbors_no_edges, dedupe, pure, Except.pure]
-    · simp [hd]
-  · simp only [hi]
-    rw [foldl_fixed _ (by intro sc acc; simp [neighbors_no_edges, pure, Except.pure])]
-    simp [dedupe]
+  simp only [hk, if_false, hadd]
+  exact hbuild
+
+/-- the children the graph path gives back are the original children, each rebuilt, up to order -/
+theorem graph_children_perm (C : Codecs V P) (k : Kind) (nid : Option String) (f : Fields V) (ks : List (Sliver V))
+    (hk : k ≠ "interface") (hs : ShapedKids k ks) :
+    (gnorm C (.mk k nid f ks)).kids.Perm (ks.map (gnorm C)) := by
+  have hk' : (k == "interface") = false := by simpa using hk
+  simp only [gnorm, Sliver.kids, hk', Bool.false_eq_true, if_false, gnormKids_eq_map]
+  apply regroup_perm
+  intro c hc
+  obtain ⟨c0, hc0, rfl⟩ := List.mem_map.mp hc
+  rw [gnorm_kind]
+  obtain ⟨sl, hsl⟩ := Option.isSome_iff_exists.mp (shapedKids_mem k ks hs c0 hc0).1
+  exact slotOf_mem_slotKinds k c0.kind sl hsl
+
+/-- the same for a component, which the harness (and `add_component_sliver`) hangs below an existing node -/
+theorem graph_roundtrip_component_partial (C : Codecs V P) (s : Sliver V) (hk : s.kind = "component") (hs : Shaped s)
+    (hw : WF C s) (hnd : (idsOf s).Nodup) (hp : "c02-parent" ∉ idsOf s) :
+    graphRoundtrip (P := P) C s = .ok (gnorm C s) := by
+  have hg0 : addNode (AGraph.empty : AGraph P) none "c02-parent" "NetworkNode" "has" Props.empty =
+      .ok (addNodeTo AGraph.empty none "c02-parent" "NetworkNode" "has" Props.empty) := rfl
+  generalize hgen : addNodeTo (AGraph.empty : AGraph P) none "c02-parent" "NetworkNode" "has" Props.empty = g0 at hg0
+  have hfresh : Fresh g0 (idsOf s) := by
+    intro i hi
+    have : i ≠ "c02-parent" := fun e => hp (e ▸ hi)
+    subst hgen
+    simp [addNodeTo, AGraph.empty, upd, this]
+  obtain ⟨g', hadd, hb, hframe⟩ := add_built C s g0 (some "c02-parent") hs hfresh hnd (fun q hq => by cases hq; exact hp)
+  have hpn : g'.node "c02-parent" = [(classOf "node", Props.empty)] := by
+    rw [(hframe.2 "c02-parent" rfl).1]
+    subst hgen
+    simp [addNodeTo, AGraph.empty, upd, classOf]
+  have hpar : ParentOk g' (some "c02-parent") s.kind := by
+    rw [hk]
+    exact parentOk_child g' "node" "component" "components" "c02-parent" Props.empty (by decide) (by decide) hpn
+  have hr : rank s.kind ≤ 5 := by rw [hk]; decide
+  have hbuild := build_built C g' s (some "c02-parent") 5 hb hs hw hpar hr
+  unfold graphRoundtrip
+  simp only [hk, if_true, hg0, hadd]
+  rw [hk] at hbuild
+  exact hbuild
 
 end
 
-/-- non-vacuity: the hypotheses hold for a link-free leaf, e.g. the interface `p1` of the examples above -/
-example : graphRoundtrip (P := String) concrete (exIface "p1") =
-    .ok (.mk "interface" (some "id-p1") (restrict (tableOf "interface") (exIface "p1").fields) []) :=
-  graph_roundtrip_leaf_partial concrete "interface" "id-p1" _ (by decide) (by decide)
-    (fieldLawB_sound _ _ _ (by decide)) (fateSharedB_sound _ _ (by decide)) (requiredB_sound _ _ (by decide))
+/-- non-vacuity of `graph_roundtrip_partial`: the four-level example tree satisfies every hypothesis -/
+example : graphRoundtrip (P := String) concrete exNode = .ok (gnorm concrete exNode) :=
+  graph_roundtrip_partial concrete exNode (by decide)
+    (by simp [Shaped, ShapedKids, exNode, exService, exIface, Sliver.kind, slotOf])
+    (wfB_sound concrete exNode (by decide)) (by decide)
 
 end FimVerif.C02
